@@ -25,18 +25,28 @@ ASSUMPTIONS = [
 ]
 
 
-def loop_scenario(n, tier, budget, maxit, until=3, selfstep=True):
+def loop_scenario(n, tier, budget, maxit, until=3, selfstep=True, future=False):
     names = ["A", "B", "C", "D"][:n]
     sims = []
     for i, s in enumerate(names):
         sims.append(_sim(s, "event-based", steps=[1] if (selfstep and i == 0) else [0], emit=[1], budget=budget))
+    if future:
+        # the head announces its outputs for the next time step (future output time) in every sub-step: the loop
+        # over the weak edge goes on in the same time, the plain edge re-enters it one step later
+        sims[0]["beh"]["future"] = [1]
+        sims[0]["beh"]["steps"] = [0]
     conns = []
     for i in range(n - 1):
         conns.append(_c(names[i], "eo", names[i + 1], "ti"))
     conns.append(_c(names[-1], "eo", names[0], "ti", weak=True))
-    tree = list(names)
-    for _ in range(tier):
-        tree = [tree]
+    if tier == "sib":
+        tree = [[[x] for x in names]]        # every member in its own sub-group of one common group
+    elif tier == "mixed":
+        tree = [[names[0], [x for x in names[1:]]]]   # head in the outer group, the rest nested
+    else:
+        tree = list(names)
+        for _ in range(tier):
+            tree = [tree]
     # an observer outside the loop's group that must see time advance normally
     sims.append(_sim("Z", "time-based", steps=[1]))
     conns.append(_c(names[0], "eo", "Z", "mi"))
@@ -123,13 +133,15 @@ SCHEDULES = [{}, {"policy": "lifo"}, {"policy": "starve", "arg": "A"}, {"policy"
 def grid(tier):
     maxes = [1, 2, 3, 5, 10, 100] if tier == "thorough" else [1, 2, 3, 5, 10, 100]
     for n in (2, 3, 4):
-        for t in (1, 2):
+        for t in (1, 2, "sib", "mixed"):
             for maxit in maxes:
                 for d in (-2, -1, 0, 1, 2):
                     budget = maxit + d
                     if budget < 1:
                         continue
                     if maxit == 100 and tier == "quick" and (n != 2 or t != 1):
+                        continue
+                    if t in ("sib", "mixed") and maxit in (5, 10) and tier == "quick":
                         continue
                     yield n, t, budget, maxit
 
@@ -151,13 +163,20 @@ def shard(prop, tier, seed, shard, nshards):
             for f in check_case(case, acc):
                 if len(acc.failures) < 20:
                     acc.failures.append(f)
+            if maxit > 10 or n != 2:
+                continue
+            # same loop with outputs announced for future times (judged per sub-tier, see 10.4/1)
+            case = {"scenario": loop_scenario(n, t, budget, maxit, until=5, future=True), "schedule": sched}
+            for f in check_case(case, acc):
+                if len(acc.failures) < 20:
+                    acc.failures.append(f)
 
     # generated scenarios with weak loops inside larger scenarios and small guards
     from hypothesis import strategies as st
 
     @st.composite
     def hcase(draw):
-        c = draw(gen.cases(min_sims=2, debug_ok=False, future_ok=False))
+        c = draw(gen.cases(min_sims=2, debug_ok=False, future_ok=True))
         scn = c["scenario"]
         scn["world"]["max_loop_iterations"] = draw(st.sampled_from([1, 2, 3, 4]))
         for s in scn["sims"]:
